@@ -212,11 +212,15 @@ func RunHarness(p *Program, h *Harness, cfg runCfg) (res *Result) {
 		}
 		res.FailPaths = uniq(res.FailPaths)
 	default:
-		res.Status = "unknown"
 		res.Model = sr.Output
-		res.Reason = "solver gave no answer"
 		if len(aborted) > 0 {
-			res.Reason += "; also outside supported subset: " + strings.Join(uniq(aborted), "; ")
+			// part of the code is outside the supported subset and nothing definite was found on the
+			// explored part: a tool condition, not a verdict about the code
+			res.Status = "undecided"
+			res.Reason = "outside supported subset: " + strings.Join(uniq(aborted), "; ") + "; (solver gave no answer on the explored paths)"
+		} else {
+			res.Status = "unknown"
+			res.Reason = "solver gave no answer"
 		}
 	}
 	return
